@@ -119,40 +119,106 @@ def export_internals(t, n, d):
     return keys, tree, missing
 
 
+def _tolists(kept):
+    return [([int(x) for x in it], [int(x) for x in cv], [int(x) for x in ov]) for it, cv, ov in kept]
+
+
 class Build:
-    """one real index build + a batch of queries, in the model's vocabulary"""
+    """one real index build + a batch of queries, in the model's vocabulary.
+
+    The index is used the way a caller uses it over time: every array returned by the batch of
+    queries is KEPT and only read after the whole batch (a result that aliases a buffer of the
+    index shows); then the caller's input array is overwritten in place and the queries are
+    asked again: the answers must still be those of the original boxes."""
 
     def __init__(self, d, rows, page_size, p, queries, tag):
         self.d, self.rows, self.page_size, self.p, self.queries, self.tag = \
             d, rows, page_size, p, queries, tag
         self.error = None
+        self.state_error = None
         self.impl = []
         self.keys = self.tree = None
         self.missing = []
+        self.shared = False
 
     def meta(self):
         return {'d': self.d, 'rows': self.rows, 'page_size': self.page_size, 'p': self.p,
                 'queries': self.queries, 'tag': self.tag}
 
-    def run(self):
+    def _ask(self, queries):
+        t = self.tree_obj
+        kept = []
+        for q in queries:
+            it = t.intersects(tuple(q))
+            cv, ov = t.covers_overlaps(tuple(q))
+            kept.append((it, cv, ov))
+        return kept
+
+    def recheck(self, every=1, why='input-aliased'):
+        """ask (a subset of) the batch again: same answers and total_bounds as the first time"""
+        if self.error or self.state_error:
+            return
+        idx = list(range(0, len(self.queries), every))
+        try:
+            again = _tolists(self._ask([self.queries[j] for j in idx]))
+            tb = [float(x) for x in self.tree_obj.total_bounds]
+        except Exception as e:
+            self.state_error = ('raises-later', idx[:1], f'{type(e).__name__}: {e}'[:200])
+            return
+        if not _same_floats(tb, self.tb):
+            self.state_error = (why, [0], {'total_bounds_before': self.tb, 'total_bounds_after': tb})
+            return
+        for j, tr in zip(idx, again):
+            if [sorted(x) for x in tr] != [sorted(x) for x in self.impl[j]]:
+                self.state_error = (why, [j], {'before': [sorted(x) for x in self.impl[j]],
+                                                'after': [sorted(x) for x in tr]})
+                return
+
+    def run(self, buf=None, recheck_every=1):
         from spatialpandas.spatialindex import HilbertRtree
         d, rows = self.d, self.rows
-        arr = np.array(rows, dtype='float64').reshape(len(rows), 2 * d)
+        n = len(rows)
+        orig = np.array(rows, dtype='float64').reshape(n, 2 * d)
+        if buf is None:
+            arr = orig.copy()           # float64, C-contiguous: the caller's array
+        else:
+            arr = buf
+            arr[...] = orig
         try:
             t = HilbertRtree(arr, p=self.p, page_size=self.page_size)
+            self.tree_obj = t
             tb = [float(x) for x in t.total_bounds]
-            per = []
-            for q in self.queries:
-                it = t.intersects(tuple(q))
-                cv, ov = t.covers_overlaps(tuple(q))
-                per.append(([int(x) for x in it], [int(x) for x in cv], [int(x) for x in ov]))
+            kept = self._ask(self.queries)          # every returned array is kept ...
+            per = _tolists(kept)                    # ... and read only after the whole batch
+            tb2 = [float(x) for x in t.total_bounds]
         except Exception as e:  # the property says queries are total
             self.error = (type(e).__name__, str(e)[:300])
             return self
-        self.tree_obj = t
         self.tb, self.impl = tb, per
         self.dup = next((j for j, tr in enumerate(per) if any(len(set(x)) != len(x) for x in tr)), None)
-        self.keys, self.tree, self.missing = export_internals(t, len(rows), d)
+        if len(kept) > 1:
+            try:
+                self.shared = bool(np.shares_memory(kept[0][0], kept[1][0])
+                                   or np.shares_memory(kept[0][1], kept[1][1])
+                                   or np.shares_memory(kept[0][1], kept[0][2]))
+            except Exception:
+                self.shared = False
+        del kept
+        self.keys, self.tree, self.missing = export_internals(t, n, d)
+        if not _same_floats(tb, tb2):
+            self.state_error = ('total_bounds-changes', [0], {'before': tb, 'after': tb2})
+        elif n and not np.array_equal(arr, orig, equal_nan=True):
+            self.state_error = ('input-modified', [0], {'input_after_build': arr.tolist()})
+        elif n:
+            # the caller reuses its array: other boxes / NaN, in place
+            mode = (n + self.page_size + len(self.queries)) % 3
+            if mode == 0:
+                arr[...] = np.nan
+            elif mode == 1:
+                arr[...] = orig[::-1] * 2 + 11
+            else:
+                arr[...] = -5.0
+            self.recheck(every=recheck_every)
         return self
 
     def _packed(self):
@@ -215,6 +281,11 @@ def check_oracle(rep, b):
         eo = np.flatnonzero(inter[j] & ~cov[j]).tolist()
         if sorted(it) != ei:
             kind = 'missing' if set(it) < set(ei) else 'extra' if set(it) > set(ei) else 'wrong'
+            try:   # right when asked alone, wrong when read after later queries?
+                if sorted(int(x) for x in b.tree_obj.intersects(tuple(q))) == ei:
+                    kind = 'overwritten-by-later-query'
+            except Exception:
+                pass
             rep.violation(f'oracle:intersects:{kind}',
                           'intersects does not return exactly the overlapping rows',
                           {**b.meta(), 'queries': [q], 'impl': sorted(it), 'expected': ei,
@@ -367,8 +438,9 @@ def run(rep):
         del group[:]
 
     for d, rows, ps, p, queries, tag in gen_builds(rep, tier):
-        b = Build(d, rows, ps, p, queries, tag).run()
         nb += 1
+        every = 1 if (queries is not Q1D or nb % 3 == 0 or ps >= len(rows)) else 9
+        b = Build(d, rows, ps, p, queries, tag).run(recheck_every=every)
         rep.evaluations += len(queries)
         rep.count('build:' + tag)
         rep.count(f'd={d}')
@@ -379,6 +451,8 @@ def run(rep):
         if b.error:
             rep.violation(f'raises:{b.error[0]}', f'index build or query raised {b.error}',
                           {**b.meta(), 'error': b.error})
+            continue
+        if not report_state(rep, b):
             continue
         eff = max(1, ps)
         pages = -(-len(rows) // eff)
@@ -430,12 +504,61 @@ def run(rep):
     flush_internal(ifull, FULL_FN, CASE_TY, FULL_RES, 'reversed-rows')
     rep.extra['cpu_python_s'] = round(_t.process_time(), 1)
     rep.extra['t_coq_s'] = round(_t.time() - rep.t0, 1)
+    run_reused(rep, tier)
     run_sizes(rep, tier)
     rep.extra['t_sizes_s'] = round(_t.time() - rep.t0, 1)
     run_ranges(rep, tier)
     rep.extra['t_ranges_s'] = round(_t.time() - rep.t0, 1)
     run_log2(rep, tier)
     rep.extra['t_log2_s'] = round(_t.time() - rep.t0, 1)
+
+
+def report_state(rep, b):
+    """violations of the stateful part of a build (False when one was reported)"""
+    if b.shared:
+        rep.count('extra:results-share-memory')
+    if b.state_error:
+        kind, js, detail = b.state_error
+        what = {'input-aliased': 'after the caller overwrote its input array the index answers differently',
+                'input-modified': 'building the index modified the caller\'s input array',
+                'second-index-from-same-buffer': 'building a second index from the refilled buffer '
+                                                 'changed the answers of the first',
+                'total_bounds-changes': 'total_bounds changed between two reads',
+                'raises-later': 'a query that worked raised when asked again'}.get(kind, kind)
+        rep.violation('state:' + kind, what,
+                      {**b.meta(), 'queries': [b.queries[j] for j in js if j < len(b.queries)],
+                       'detail': detail})
+        return False
+    rep.count('state:rechecked-after-input-overwrite')
+    return True
+
+
+def run_reused(rep, tier):
+    """two indexes built one after the other from ONE caller buffer refilled in between: each
+    answers for the boxes it was built from (oracle), before and after the other exists"""
+    rng = rep.rng
+    for i in range(250 if tier == 'quick' else 5000):
+        d = rng.choice([1, 2, 2, 3])
+        n = rng.randint(1, 10)
+        rows_a = [r for r in U.rand_rows(rng, d, n)]
+        rows_b = [r for r in U.rand_rows(rng, d, n)]
+        if not (U.well_formed(rows_a, d) and U.well_formed(rows_b, d)):
+            continue
+        ps = rng.choice([n, n + 1, 512, rng.randint(1, n), 2])
+        qs = U.rand_queries(rng, d, rows_a + rows_b, 16)
+        buf = np.empty((n, 2 * d), dtype='float64')
+        b1 = Build(d, rows_a, ps, 10, qs, 'reused-buffer:first').run(buf=buf)
+        b2 = Build(d, rows_b, ps, rng.choice([1, 10]), qs, 'reused-buffer:second').run(buf=buf)
+        b1.recheck(why='second-index-from-same-buffer')
+        rep.evaluations += 3 * len(qs)
+        rep.count('build:reused-buffer', 2)
+        for b in (b1, b2):
+            if b.error:
+                rep.violation(f'raises:{b.error[0]}', f'index build or query raised {b.error}',
+                              {**b.meta(), 'error': b.error})
+                return
+            if not report_state(rep, b) or not check_oracle(rep, b):
+                return
 
 
 def parse_model(txt):
@@ -674,6 +797,17 @@ def replay(rep, rp):
     if b.error:
         print('impl raised', b.error)
         return False
+    if b.state_error:
+        print('stateful sequence (batch kept, input overwritten, batch asked again):', b.state_error)
+        return False
+    if rp.get('tag', '').startswith('reused-buffer'):
+        buf = np.empty((len(rows), 2 * rp['d']), dtype='float64')
+        b = Build(rp['d'], rows, rp['page_size'], rp['p'], queries, 'replay').run(buf=buf)
+        other = Build(rp['d'], [[0.0] * (2 * rp['d'])] * len(rows), rp['page_size'], 1, queries, 'replay').run(buf=buf)
+        b.recheck(why='second-index-from-same-buffer')
+        if b.state_error or other.state_error:
+            print('reused buffer:', b.state_error or other.state_error)
+            return False
     ok = check_oracle(rep, b)
     check_pickle(rep, b)
     bad = []
